@@ -20,6 +20,7 @@ struct Stmt {
   std::vector<std::string> ex, im, oo, val;  // declared inputs by kind, validations
   std::string cmd;
   CmdSpec spec;                   // parsed from cmd: the command's true behaviour
+  std::string rule;               // rule name in the manifest ("phony" for phony statements)
   std::string pool;               // "" = default, "console", or a named pool
   bool restat = false, generator = false;
   std::string deps, depfile, dyndep, rspfile, rspfile_content;
@@ -52,6 +53,9 @@ struct Op {
   std::vector<std::string> flags, targets;
   int j = 1, k = 1;
   bool tool = false;         // "-t xxx" invocation: not a build
+  std::string tool_kind;     // clean-all | clean-all-g | clean-targets | clean-rules | cleandead | readonly | commands | compdb
+  std::vector<std::string> tool_args;  // targets / rule names for the clean modes
+  bool tool_dry = false;     // -n given to a clean tool
   bool dry_run = false;
   RunConfig cfg;             // faults, interrupts, edits during, env
   bool crash = false;        // additionally enumerate every crash point of every schedule of this invocation
